@@ -58,6 +58,14 @@ inductive Err where
   | unsupportedDirective    -- a directive outside this model (#include, #if ..., #line): property C10
   deriving DecidableEq, Repr
 
+/-- results of model runs are compared by `decide` in witnesses and examples -/
+instance instDecidableEqExcept {ε α : Type} [DecidableEq ε] [DecidableEq α] : DecidableEq (Except ε α) := fun a b =>
+  match a, b with
+  | .ok x, .ok y => if h : x = y then isTrue (h ▸ rfl) else isFalse (fun e => h (Except.ok.inj e))
+  | .error x, .error y => if h : x = y then isTrue (h ▸ rfl) else isFalse (fun e => h (Except.error.inj e))
+  | .ok _, .error _ => isFalse (fun e => nomatch e)
+  | .error _, .ok _ => isFalse (fun e => nomatch e)
+
 /-! ## A small lexer for the pasted spelling (`tokenize()` restricted to ASCII) -/
 namespace Lex
 
